@@ -55,4 +55,8 @@ def diff(exp, got, check_prims=True):
         for name, ports in exp["primitives"].items():
             if got["primitives"].get(name) != ports:
                 return ("primitive-ports", "%s: expected %r got %r" % (name, ports, got["primitives"].get(name)))
+    for name, ports in exp.get("inferred", {}).items():
+        gp = {k: v[1] for k, v in got["primitives"].get(name, {}).items()}
+        if gp != ports:
+            return ("inferred-black-box-ports", "%s: expected widths %r got %r" % (name, ports, gp))
     return None
